@@ -450,4 +450,14 @@ def value_selftest(ctx, events, rng):
         raise vlib.ToolError("value self-test found too few corruptible events")
 
 
-# MUTANTS: see the block appended after mutation testing
+# MUTANTS (scratch worktree /tmp/wt-c27 = /repo HEAD + hooks/H5-route-trace.patch, CLI rebuilt per set, quick tier):
+#  M1 jq_runner.rs collapse_duplicate_fields: `Some(&at) => chosen[at] = *field` -> `Some(_) => {}` (first position, FIRST value)
+#       -> VIOLATION exit 1 (replay of TLC cases + trace: cls value, lazy route, dup=1)
+#  M2 output.rs format_json_impl: `if opts.sort_keys` -> `if opts.sort_keys && level == 0` (nested objects not sorted under -S)
+#       -> VIOLATION exit 1 (cls value, S=1, both materialised routes)
+#  M3 output.rs escape_json_string_ascii: strings holding an astral character are left literal under -a
+#       -> VIOLATION exit 1 (cls ascii, a=1)
+#  M4 jq_runner.rs print_json, compact cursor array loop: `if i >= 4 { break; }` (lazy printer drops trailing elements)
+#       -> VIOLATION exit 1 (cls value, route lazy); run alone to rule out masking by M3
+#  (M1+M5, M2+M6, M3+M4 were built together -- disjoint code; C11 was also run on M4 alone.)
+#  Unchanged tree: exit 0 with one KNOWN-FINDING (known_findings.d/C11.json, --seq drops records nested > 128).
